@@ -157,6 +157,16 @@ def tkHelper : String → Option TestKit.Helper
 def tkType : String → Option TestKit.TypeKind
   | "tv" => some .tv | "tp" => some .tp | "ptp" => some .ptp | "tn" => some .tn | _ => none
 
+/-- `-` = nil helper; `<start>,<addArg>,<emptyIs>,<eqMod>` = scripted custom `TypeHelper` -/
+def tkHelperBeh (s : String) : Option (Option TestKit.HelperBeh) :=
+  if s == "-" then some none else
+  match s.splitOn "," with
+  | [st, ad, em, m] => do
+    let st ← st.toInt?; let em ← em.toInt?; let m ← m.toNat?
+    if ad != "0" && ad != "1" then none
+    pure (some ⟨st, ad == "1", em, m⟩)
+  | _ => none
+
 def initRecv : String → Option Hist.Recv
   | "date" => some (.date Date.zero) | "roman" => some (.roman 0) | "sem" => some (.sem Sem.Ver.zero)
   | "size" => some (.size 0) | "uu" => some (.uu UU.ID.zero) | _ => none
@@ -315,10 +325,16 @@ def step (line : String) : String :=
     (do let a ← a.toNat?; let b ← b.toNat?
         let i := UU.randomID (BitVec.ofNat 64 a) (BitVec.ofNat 64 b)
         pure s!"{i.hi.toNat} {i.lo.toNat}").getD bad
-  | "test.run" :: h :: tk :: cases =>
+  | "test.run" :: h :: tk :: rest =>
+    -- optional trailing field: the TypeHelper of the Unmarshal helpers, `h:-` (nil, the default) or
+    -- `h:<start>,<addArg 0|1>,<emptyIs>,<eqMod>`
     (do let h ← tkHelper h; let tk ← tkType tk
+        let (cases, hb) ← (match rest.getLast? with
+          | some l => if l.startsWith "h:" then (tkHelperBeh ((l.drop 2).toString)).map fun hb => (rest.dropLast, hb)
+                      else some (rest, none)
+          | none => some (rest, none))
         let cs ← cases.mapM tkCase
-        let (fn, reps) := TestKit.run h tk cs
+        let (fn, reps) := TestKit.run h tk hb cs
         pure ("=" ++ (if fn then "F" else "") ++ String.ofList (reps.map fun (r : Bool) => if r then 'r' else '-'))).getD bad
   | "hist" :: ty :: ops =>
     (do let r ← initRecv ty
